@@ -28,6 +28,8 @@ func (f fault) String() string {
 		return fmt.Sprintf("duplicate payload %d and relabel the copy as %s", f.I, f.To)
 	case "swap_labels":
 		return fmt.Sprintf("exchange the type labels of payloads %d and %d", f.I, f.J)
+	case "all_ids_unknown":
+		return "every payload gets a different unknown schema id (what a consumer that restarted and lost all its state sees)"
 	case "schema_id_stale":
 		return fmt.Sprintf("payload %d gets the retired schema id %q", f.I, f.ID)
 	case "schema_id_unknown":
@@ -63,6 +65,10 @@ func applyFault(bar *colarspb.BatchArrowRecords, f fault) {
 		bar.ArrowPayloads = append(out, ps[f.I+1:]...)
 	case "swap_labels":
 		ps[f.I].Type, ps[f.J].Type = ps[f.J].Type, ps[f.I].Type
+	case "all_ids_unknown":
+		for k := range ps {
+			ps[k].SchemaId = fmt.Sprintf("9%03d", k)
+		}
 	case "reorder":
 		ps[f.I], ps[f.J] = ps[f.J], ps[f.I]
 	case "empty":
@@ -92,6 +98,9 @@ func singleFaults(bar *colarspb.BatchArrowRecords, signal string, retired []stri
 			colarspb.ArrowPayloadType_RESOURCE_ATTRS, colarspb.ArrowPayloadType_NUMBER_DATA_POINTS, colarspb.ArrowPayloadType_HISTOGRAM_DP_EXEMPLARS, colarspb.ArrowPayloadType_SUMMARY_DP_ATTRS}
 	}
 	relabelTo = append(relabelTo, colarspb.ArrowPayloadType_UNKNOWN, colarspb.ArrowPayloadType(99))
+	// crash-restart of the consumer with loss of all (non-durable) state is the
+	// same as every schema id being unknown
+	fs = append(fs, fault{Kind: "all_ids_unknown"})
 	for i := 0; i < n; i++ {
 		for _, to := range relabelTo {
 			if to != bar.ArrowPayloads[i].Type {
